@@ -218,6 +218,7 @@ MRX = ['babylon/reusable/memory_resource.cpp', 'babylon/reusable/page_allocator.
 def mr(name, k, prefix, pbytes, maxbytes, maxalog, **kw):
     S('mr_' + name, 'memres/mr.cpp', {'assert': 'C06'}, defs=['VF_K=%d' % k, 'VF_PREFIX=%d' % prefix, 'VF_PREFIX_BYTES=%d' % pbytes, 'VF_MAXBYTES=%d' % maxbytes, 'VF_MAXALIGN_LOG2=%d' % maxalog],
       extra=MRX, models=['sc'], bound=12, **kw)
+S('mr_shared_two_threads', 'memres/shared.cpp', {'assert': 'C06'}, extra=MRX, models=['sc'], bound=12)
 mr('fresh_k2', 2, 0, 8, 300, 9)
 mr('array_full_k2', 2, 15, 200, 300, 6)
 mr('array_last_slot_k2', 2, 14, 200, 140, 4)
